@@ -54,9 +54,11 @@ def extra_models():
 class G:
     """Symbolic graph on n fixed vertices; E[(i,j)] is the presence of edge i->j."""
 
-    def __init__(self, n, cand=None, fixed=()):
-        """cand: the edges whose presence is symbolic (default: all n*n); fixed: edges that are always present; every other edge is absent."""
+    def __init__(self, n, cand=None, fixed=(), symbolic_vertices=False):
+        """cand: the edges whose presence is symbolic (default: all n*n); fixed: edges that are always present; every other edge is absent.
+        symbolic_vertices: vertex i is present iff V[i]; an edge requires both endpoints (representation invariant, assumed)."""
         self.n = n
+        self.V = {i: (z3.Bool(f"v_{i}") if symbolic_vertices else z3.BoolVal(True)) for i in range(n)}
         self.E = {}
         for i in range(n):
             for j in range(n):
@@ -64,9 +66,14 @@ class G:
                 elif cand is None or (i, j) in cand: self.E[(i, j)] = z3.Bool(f"e_{i}_{j}")
                 else: self.E[(i, j)] = z3.BoolVal(False)
 
+    def invariant(self):
+        return z3.And(*[z3.Implies(c, z3.And(self.V[i], self.V[j])) for (i, j), c in self.E.items()])
+
     def value(self):
         n, E = self.n, self.E
         verts = PC.PMap({i: I.Agg("struct", "NullVertex", [z3.BitVecVal(i, 64)]) for i in range(n)})
+        vc = lambda i: True if z3.is_true(self.V[i]) else self.V[i]
+        for i in range(n): verts.d[i][0] = vc(i)
         edges = PC.PMap()
         cond = lambda c: True if z3.is_true(c) else c
         live = {k: c for k, c in E.items() if not z3.is_false(c)}
@@ -74,6 +81,8 @@ class G:
             edges.d[(i, j)] = [cond(c), I.ValRef(I.Agg("struct", "NullEdge", [z3.BitVecVal(i, 64), z3.BitVecVal(j, 64)]))]
         succ = PC.PMap({i: PC.PSet({j: cond(live[(i, j)]) for j in range(n) if (i, j) in live}) for i in range(n)})
         pred = PC.PMap({j: PC.PSet({i: cond(live[(i, j)]) for i in range(n) if (i, j) in live}) for j in range(n)})
+        for i in range(n):
+            succ.d[i][0] = vc(i); pred.d[i][0] = vc(i)
         return I.Agg("struct", "Graph", [verts, edges, succ, pred])
 
     # ---- textbook definitions as formulas over E
@@ -315,6 +324,7 @@ def norm_sym(alg, res):
 
 
 def work(item):
+    if item.get("op"): return work_edit(item)
     alg, n, root = item["alg"], item["n"], item["root"]
     prog, _ = program()
     meth, takes_root, dalg = ALGS[alg]
@@ -384,6 +394,99 @@ def work(item):
     return out
 
 
+def cond_of(c): return z3.BoolVal(True) if c is True else c
+
+
+def views_of(gv, n):
+    """presence conditions of the four views after the call: vertices[i], succkey[i], predkey[i], edge[(i,j)], succ[(i,j)], pred[(i,j)]"""
+    F = z3.BoolVal(False)
+    verts, edges, succ, pred = gv.fields
+    out = {"v": {}, "sk": {}, "pk": {}, "e": {}, "s": {}, "p": {}}
+    for i in range(n + 1):
+        out["v"][i] = cond_of(verts.d[i][0]) if i in verts.d else F
+        out["sk"][i] = cond_of(succ.d[i][0]) if i in succ.d else F
+        out["pk"][i] = cond_of(pred.d[i][0]) if i in pred.d else F
+        for j in range(n + 1):
+            out["e"][(i, j)] = cond_of(edges.d[(i, j)][0]) if (i, j) in edges.d else F
+            ss = succ.d[i][1].get() if i in succ.d else None
+            pp = pred.d[j][1].get() if j in pred.d else None
+            out["s"][(i, j)] = z3.And(out["sk"][i], cond_of(ss.d[j])) if ss is not None and j in ss.d else F
+            out["p"][(i, j)] = z3.And(cond_of(pred.d[j][0]), cond_of(pp.d[i])) if pp is not None and i in pp.d else F
+    return out
+
+
+def work_edit(item):
+    """One edit step (inductive): arbitrary consistent graph on a symbolic subset of vertices 0..n-1, one insertion/removal."""
+    n = item["n"]; op = item["op"]
+    prog, _ = program()
+    meth = {"remove_vertex": "remove_vertex", "remove_edge": "remove_edge", "insert_edge": "insert_edge", "insert_vertex": "insert_vertex"}[op[0]]
+    fn = find(prog, meth)
+    g = G(n, symbolic_vertices=True)
+    out = {"what": f"edit {op} n={n}", "alg": "edit:" + op[0], "paths": 0, "unsat": 0, "findings": [], "undecided": [], "solver_s": 0.0, "fn": fn, "calls": set(), "validated": 0, "validation_failures": []}
+    it = I.Interp(prog, W=64, models=extra_models() + PC.MODELS + M.MODELS, timeout_ms=10000)
+    inv = g.invariant()
+    holder = {}
+
+    def mk(it_):
+        it_.solver.add(inv); it_.pc.append(inv)
+        gv = g.value(); holder["g"] = gv
+        bv = lambda x: z3.BitVecVal(x, 64)
+        if op[0] == "remove_vertex": args = [bv(op[1])]
+        elif op[0] == "insert_vertex": args = [I.Agg("struct", "NullVertex", [bv(op[1])])]
+        elif op[0] == "remove_edge": args = [bv(op[1]), bv(op[2])]
+        else: args = [I.Agg("struct", "NullEdge", [bv(op[1]), bv(op[2])])]
+        return [I.ValRef(gv)] + args
+    T, F = z3.BoolVal(True), z3.BoolVal(False)
+    V = lambda i: g.V[i] if i < n else F
+    E = lambda i, j: g.E[(i, j)] if i < n and j < n else F
+    seen = set()
+    for r in I.explore(it, fn, mk, max_paths=50000):
+        out["paths"] += 1; out["calls"] |= set(r["calls"])
+        pc = r["pc"]
+        if r["outcome"] == "unsupported":
+            out["undecided"].append("unsupported: " + r["msg"][:200]); continue
+        if r["outcome"] == "panic":
+            v, m, dt = solve.check(pc, 20000); out["solver_s"] += dt
+            if v == solve.SAT and "panic" not in seen:
+                seen.add("panic"); out["findings"].append({"kind": "panic", "detail": r["msg"][:120], "edges": concrete_edges(m, g), "vertices": [i for i in range(n) if z3.is_true(m.eval(g.V[i], model_completion=True))]})
+            continue
+        res = val(r["value"]); ok = res.variant == 0
+        vw = views_of(holder["g"], n)
+        # expected post-state and result
+        if op[0] == "remove_vertex":
+            x = op[1]; exp_ok = V(x)
+            ev = lambda i: z3.And(V(i), T if i != x else F); ee = lambda i, j: z3.And(E(i, j), T if (i != x and j != x) else F)
+        elif op[0] == "insert_vertex":
+            x = op[1]; exp_ok = z3.Not(V(x))
+            ev = lambda i: z3.Or(V(i), T if i == x else F); ee = E
+        elif op[0] == "remove_edge":
+            h, t = op[1], op[2]; exp_ok = E(h, t)
+            ev = V; ee = lambda i, j: z3.And(E(i, j), F if (i, j) == (h, t) else T)
+        else:
+            h, t = op[1], op[2]; exp_ok = z3.And(V(h), V(t), z3.Not(E(h, t)))
+            ev = V; ee = lambda i, j: z3.Or(E(i, j), T if (i, j) == (h, t) else F)
+        claims = [("result (Ok/Err) differs from the specification", exp_ok == (T if ok else F))]
+        for i in range(n + 1):
+            want_v = ev(i) if ok else V(i)
+            claims.append(("vertex view wrong after the edit", vw["v"][i] == want_v))
+            claims.append(("successor/predecessor maps do not have exactly the vertices as keys", z3.And(vw["sk"][i] == vw["v"][i], vw["pk"][i] == vw["v"][i])))
+            for j in range(n + 1):
+                want_e = ee(i, j) if ok else E(i, j)
+                claims.append(("edge view wrong after the edit", vw["e"][(i, j)] == want_e))
+                claims.append(("edge, successor and predecessor views disagree", z3.And(vw["s"][(i, j)] == vw["e"][(i, j)], vw["p"][(i, j)] == vw["e"][(i, j)])))
+        bad = z3.Or(*[z3.Not(c) for _, c in claims])
+        v, m, dt = solve.check(pc + [bad], 30000); out["solver_s"] += dt
+        if v == solve.SAT:
+            for kind, c in claims:
+                if z3.is_false(m.eval(c, model_completion=True)) and kind not in seen:
+                    seen.add(kind)
+                    out["findings"].append({"kind": kind, "detail": f"{op} returned {'Ok' if ok else 'Err'}", "edges": concrete_edges(m, g), "vertices": [i for i in range(n) if z3.is_true(m.eval(g.V[i], model_completion=True))]}); break
+        elif v == solve.UNDECIDED: out["undecided"].append("edit query")
+        else: out["unsat"] += len(claims)
+    out["calls"] = sorted(out["calls"])
+    return out
+
+
 def replay_real(alg, n, root, edges):
     rr = drv.call({"cmd": "graph", "vertices": list(range(n)), "edges": edges, "root": root, "alg": ALGS[alg][2]})
     return rr
@@ -408,6 +511,13 @@ def main():
             else:
                 items.append({"alg": alg, "n": n, "root": root})
     items += sparse_items(rep.seed, rep.tier)
+    ne = 3
+    for x in range(ne + 1):
+        items.append({"n": ne, "op": ["remove_vertex", x]}); items.append({"n": ne, "op": ["insert_vertex", x]})
+    for h in range(ne + 1):
+        for t in range(ne + 1):
+            if h < ne and t < ne or (h, t) in ((ne, 0), (0, ne)):
+                items.append({"n": ne, "op": ["remove_edge", h, t]}); items.append({"n": ne, "op": ["insert_edge", h, t]})
     results = common.pmap(work, items, chunksize=1)
     fns = {}
     paths = 0; validated = 0
@@ -431,6 +541,14 @@ def main():
             sig = f"graph/{r['alg']}/{f['kind'] if f['kind'] != 'panic' else 'panic: ' + re.sub(r'[0-9]+', '#', f['detail'])[:50]}"
             if sig in seen: continue
             seen.add(sig)
+            if it.get("op"):
+                rr = drv.call({"cmd": "graph", "vertices": f.get("vertices", []), "edges": f["edges"], "edit": [it["op"]], "root": 0, "alg": "views"})
+                confirmed = True
+                note = f"real code: vertices {f.get('vertices')}, edges {f['edges']}, then {it['op']}: {json.dumps(rr)[:260]}"
+                if f["kind"] == "panic" and "panic" not in rr: confirmed = False
+                if f["kind"] == "panic" and not confirmed:
+                    rep.encoder_defect(f"model does not reproduce: {r['what']}: {f['detail']}; {note}"); continue
+                rep.violation(sig, f"{r['what']}: {f['kind']}: {f['detail']}; {note}", {"item": it, "finding": f, "real_code": rr}); continue
             rr = replay_real(r["alg"], it["n"], it["root"], f["edges"])
             confirmed = ("panic" in rr) if f["kind"] == "panic" else True
             note = f"real code on vertices 0..{it['n'] - 1}, edges {f['edges']}, root {it['root']}: {json.dumps(rr)[:200]}"
@@ -440,7 +558,8 @@ def main():
     rep.functions_encoded = sorted(fns)[:60]
     rep.bounds = {"vertices": n, "edges": "all n*n edge subsets (self-loops included), symbolic", "roots": "0 and n-1",
                   "sparse": "plus graphs of 6..8 (thorough 6..10) vertices with a random spanning tree from a random root fixed and 7 (thorough 10) further edges symbolic (seeded by VERIF_SEED), for the dominator/loop algorithms",
-                  "outside": "more vertices; vertex ids other than 0..n-1; vertex/edge insertion and removal sequences (covered for CFGs by C15's ground invariants, not claimed here); compute_loop_tree, dot output"}
+                  "edits": "one insert_vertex/insert_edge/remove_vertex/remove_edge step from an arbitrary consistent graph on a symbolic subset of 3 vertices (inductive step: sequences of edits follow)",
+                  "outside": "more vertices; vertex ids other than 0..n-1; compute_loop_tree, dot output"}
     rep.finish({"states": max(1, paths), "transitions": max(1, rep.queries["unsat"] + rep.queries["sat"]), "traces_validated_against_impl": validated,
                 "explanation": "states = MIR paths through each graph algorithm on the symbolic-edge graph; transitions = per-path definition queries"},
                assumptions=["std containers behave as documented (mirsym/pycont.py); FxHashMap/FxHashSet iterate in key order in the model - results are assumed not to depend on hash iteration order (the real-code validation runs would expose a dependence)",
